@@ -163,6 +163,7 @@ class Profile:
         self.port_ids = False
         self.multi_version = True
         self.crlf = False
+        self.confusable_families = True
         self.__dict__.update(kw)
 
 
@@ -380,6 +381,33 @@ def generate(seed_labels: typing.Tuple, profile: typing.Optional[Profile] = None
                 if "@deprecated" in t.text:
                     m.text = t.text
                 ds.types.append(m)
+        # now and then: a family of names that tie or reorder under "clever" comparisons (natural sort, zero padding,
+        # numeric suffixes) plus one type that refers to all of them - ordering by such keys must stay total
+        rf = r.sub("family", ri)
+        if p.confusable_families and rf.chance(1, 4):
+            fam = rf.choice([["Cell1", "Cell01", "Cell001"], ["Item2", "Item10", "Item9"], ["V1x2", "V1x02", "V01x2"], ["Aa", "AA1", "Aa01"]])
+            members = []
+            base_ns = list(rf.choice(ns_pool))
+            for nm in fam:
+                g = GenType()
+                g.root, g.ns, g.short, g.major, g.minor = root, list(base_ns), nm, 1, 0
+                if str((g.full_name.lower(), 1)) in used:
+                    continue
+                used.add(str((g.full_name.lower(), 1)))
+                g.text = "uint8 v\n@sealed\n"
+                g.max_bits_hint = 8
+                ds.types.append(g)
+                members.append(g)
+            if len(members) >= 2:
+                g = GenType()
+                g.root, g.ns, g.short, g.major, g.minor = root, list(base_ns), "Pack", 1, 0
+                if str((g.full_name.lower(), 1)) not in used:
+                    used.add(str((g.full_name.lower(), 1)))
+                    order = rf.shuffle(list(members))
+                    g.text = "\n".join("%s f%d" % (m.ref, i) for i, m in enumerate(order)) + "\n@sealed\n"
+                    g.deps = list(members)
+                    g.max_bits_hint = 8 * len(members)
+                    ds.types.append(g)
     return ds
 
 
